@@ -8,7 +8,7 @@
    channel contents, any pending pause tokens, any number of WARC files; the label sequence fixes
    the interleaving.  Environment hypothesis (the [LWork] label is always enabled for a working
    worker): a fetch in progress ends (HTTP timeouts). *)
-From ZenoV Require Import Pipe.StopLts Pipe.StopProofs.
+From ZenoV Require Import Pipe.StopLts Pipe.StopProofs Pipe.WarcStopLts Pipe.WarcStopProofs.
 
 (* Bounded time, without crash: from EVERY well-formed state at the stop moment and for EVERY
    interleaving, at most [measure st] steps can happen (an explicit bound: 13 per seed in the
@@ -60,3 +60,100 @@ Theorem C03_busy_pipeline_stops :
   end.
 Proof. exact busy_stops. Qed.
 Print Assumptions C03_busy_pipeline_stops.
+
+(* ---- The WARC side of the stop sequence (Pipe/WarcStopLts.v): stopper step 4 of the LTS above
+   ("close and rename the WARC files") opened up.  Processes: the archiver workers with their fetch
+   goroutines, the dialer goroutines of the WARC client (one per connection, counted by
+   Client.WaitGroup), the WARCWriter channel (capacity [g_cap]), the pool of recordWriter goroutines,
+   and the stopper executing archiver.Stop(): cancel; wait for the workers; WaitGroup.Wait;
+   close(WARCWriter); wait for every writer; close(ErrChan).  All theorems: for EVERY state [wwf] at the
+   stop moment (any workers in any state, any number of exchanges under way, any channel content within
+   the capacity, any pool >= 1 with writers in any phase, synchronous or asynchronous writing, any
+   capacity incl. an unbuffered channel, any number of records per batch) and EVERY label sequence.
+   Environment hypothesis: a fetch in progress ends ([XFetchEnd] is always enabled). ---- *)
+
+(* without crashing: no reachable state has panicked (a send on the closed WARCWriter channel, a send on
+   the closed ErrChan), and the channel never exceeds its capacity *)
+Theorem C03_warc_no_panic : forall st ls st',
+  wwf st -> real_order st -> x_pc st = 0 -> wrun st ls = Some st' ->
+  x_panicked st' = false /\ queued st' <= g_cap (x_cfg st').
+Proof. exact warc_stop_no_panic. Qed.
+Print Assumptions C03_warc_no_panic.
+
+(* every single step strictly decreases the explicit measure, in every variant of the stop order *)
+Theorem C03_warc_step_decreases : forall st l st',
+  wstep st l = Some st' -> wmeasure st' < wmeasure st.
+Proof. exact wstep_decreases. Qed.
+Print Assumptions C03_warc_step_decreases.
+
+(* bounded time: at most [wmeasure st] steps; an execution that no step of the system itself (every label
+   but the failures chosen by the environment and the hand-on to the next stage) can extend is final:
+   archiver.Stop() has returned, every worker has returned, every writer has closed and renamed its file,
+   no exchange is under way or queued *)
+Theorem C03_warc_stop_terminates : forall st ls st',
+  wwf st -> real_order st -> x_pc st = 0 -> wrun st ls = Some st' ->
+  length ls <= wmeasure st
+  /\ ((forall l, fair l = true -> wstep st' l = None) -> wfinal st').
+Proof. exact warc_stop_terminates. Qed.
+Print Assumptions C03_warc_stop_terminates.
+
+(* complete records only: in EVERY reachable state (from any state whatsoever) every renamed file holds
+   whole batches only - a file is renamed between two batches or after the channel is drained, never
+   inside a batch -, and in a final state no *.open file is left and nothing is partly written *)
+Theorem C03_warc_files_complete : forall st ls st',
+  untorn st -> wrun st ls = Some st' ->
+  untorn st' /\ (wfinal st' -> files_final st').
+Proof. exact warc_stop_files_complete. Qed.
+Print Assumptions C03_warc_files_complete.
+
+(* nothing is lost: records on disk + records owed to the disk (k per exchange that is being fetched,
+   assembled, queued or held by a writer, the rest of a batch that is being written) change only by +k per
+   fetch started and -k per exchange the dialer gives up (discard hook, read error); so after Stop() the
+   disk holds everything that was on disk or under way at the stop moment or started afterwards *)
+Theorem C03_warc_nothing_lost : forall st ls st',
+  wwf st -> real_order st -> x_pc st = 0 -> wrun st ls = Some st' ->
+  wdisk st' + wowed st' + g_k (x_cfg st) * drops ls = wdisk st + wowed st + g_k (x_cfg st) * starts ls
+  /\ (wfinal st' -> wdisk st' + g_k (x_cfg st) * drops ls = wdisk st + wowed st + g_k (x_cfg st) * starts ls).
+Proof. exact warc_stop_nothing_lost. Qed.
+Print Assumptions C03_warc_nothing_lost.
+
+(* no deadlock: in every reachable state that is not final some step of the system itself is enabled -
+   including a full or unbuffered channel (hand-over to a writer) and a fetch goroutine that waits for the
+   feedback of a batch that is still on its way *)
+Theorem C03_warc_progress : forall st ls st',
+  wwf st -> real_order st -> x_pc st = 0 -> wrun st ls = Some st' -> ~ wfinal st' ->
+  exists l s, wstep st' l = Some s /\ fair l = true.
+Proof. exact warc_stop_progress. Qed.
+Print Assumptions C03_warc_progress.
+
+(* the order of archiver.Stop() matters: closing the client without waiting for the workers lets a worker
+   that is still inside archive() dial after close(WARCWriter) - the dialer goroutine's send panics *)
+Theorem C03_warc_order_matters_refuted :
+  wwf early_close_state /\ x_pc early_close_state = 0 /\
+  exists ls st', wrun early_close_state ls = Some st' /\ x_panicked st' = true.
+Proof. exact warc_stop_order_matters_refuted. Qed.
+Print Assumptions C03_warc_order_matters_refuted.
+
+(* ... and so does WaitGroup.Wait() before close(WARCWriter): with asynchronous writing the worker returns
+   while the dialer goroutine of its last fetch still assembles the batch *)
+Theorem C03_warc_no_waitgroup_refuted :
+  wwf no_wg_state /\ x_pc no_wg_state = 0 /\
+  exists ls st', wrun no_wg_state ls = Some st' /\ x_panicked st' = true.
+Proof. exact warc_stop_no_waitgroup_refuted. Qed.
+Print Assumptions C03_warc_no_waitgroup_refuted.
+
+(* non-vacuity: synchronous writing, two workers fetching (one also waiting for a queued batch), a pool of
+   two with one writer in the middle of a batch, a seed still queued; a schedule with a rotation, a fetch
+   started after the stop request, a discarded exchange and a direct hand-over reaches the final state with
+   9 + 7 + 2*1 - 2*1 = 16 records in four renamed files *)
+Theorem C03_warc_busy_stops :
+  wwf busy_warc_state /\ real_order busy_warc_state /\ x_pc busy_warc_state = 0 /\ untorn busy_warc_state /\
+  wdisk busy_warc_state = 9 /\ wowed busy_warc_state = 7 /\ starts busy_warc_schedule = 1 /\ drops busy_warc_schedule = 1 /\
+  match wrun busy_warc_state busy_warc_schedule with
+  | Some st => x_pc st = WPC_DONE /\ x_panicked st = false /\ x_aw st = [AwGone; AwGone]
+               /\ x_writers st = [WRT PhDone 0 [WF 8 false; WF 4 false]; WRT PhDone 0 [WF 4 false; WF 0 false]]
+               /\ wdisk st = 16 /\ inflight st + queued st = 0
+  | None => False
+  end.
+Proof. exact busy_warc_stops. Qed.
+Print Assumptions C03_warc_busy_stops.
